@@ -247,10 +247,18 @@ impl InnerNodeManage {
         if self.all_nodes.is_empty() {
             ProcessRange::new(0, 1)
         } else {
-            ProcessRange::new(
-                self.get_this_node().index as usize,
-                self.all_nodes.iter().filter(|(_, v)| v.is_valid()).count(),
-            )
+            //index is the position among the valid nodes (the list route_addr indexes)
+            let valid_ids: Vec<u64> = self
+                .all_nodes
+                .values()
+                .filter(|v| v.is_valid())
+                .map(|v| v.id)
+                .collect();
+            let index = valid_ids
+                .iter()
+                .position(|id| *id == self.local_id)
+                .unwrap_or(0);
+            ProcessRange::new(index, valid_ids.len())
         }
     }
 
